@@ -163,6 +163,11 @@ pub fn run(prog: &Program, cfg: &RunCfg) -> Result<RunStats, Failure> {
             Some(Err(e)) => format!("error:{}", qverif::canon::error_class(&e)),
             None => format!("hang:quiescent={}", sim.quiescent()),
         };
+        if got == "hang:quiescent=false" {
+            // step budget exhausted under a starving schedule: not a verdict about C06
+            outcomes.push("budget-exhausted".into());
+            break;
+        }
         if let Some(exp) = &prog.expected[li] {
             let want = format!("value:{exp}");
             if got != want && prog.confluent {
